@@ -36,8 +36,7 @@ class GraphTrace:
 
     def __init__(self, wntr, link_names):
         self.wntr, self.link_names = wntr, link_names
-        self.init = None
-        self.updates = []
+        self.runs = []          # one record per _initialize_internal_graph: [flags, entries, updates]
         self.asym = 0
 
     def _entries(self, sim, wn):
@@ -62,12 +61,13 @@ class GraphTrace:
 
         def w_init(sim):
             me.o_init(sim)
-            me.init = (me._flags(sim._wn), me._entries(sim, sim._wn))
+            me.runs.append([me._flags(sim._wn), me._entries(sim, sim._wn), []])
 
         def w_upd(sim):
             ch = [idx[o.name] for o, a in sim._change_tracker.get_changes(ref_point='graph') if a == 'status' and o.name in idx]
             me.o_upd(sim)
-            me.updates.append((ch, me._flags(sim._wn), me._entries(sim, sim._wn)))
+            if me.runs:
+                me.runs[-1][2].append((ch, me._flags(sim._wn), me._entries(sim, sim._wn)))
         S._initialize_internal_graph, S._update_internal_graph = w_init, w_upd
         return self
 
@@ -146,9 +146,34 @@ def check(run, replay=None):
             snap = (int(wn_.sim_time), tuple(st), tuple(ij), tuple(il))
             snaps[int(wn_.sim_time)] = snap
             allsnaps.append(snap)
+        reuse = rng.random() < 0.4
         with simrun.Trace(wntr, cb), GraphTrace(wntr, link_names) as gt:
             res, err, warns, sim = simrun.run(wntr, wn)
-        if gt.init is not None:
+            if reuse and res is not None:
+                # the same simulator object runs the reset model a second time (flags of every solve are traced like those of the first run)
+                snaps1 = dict(snaps)
+                n1 = len(allsnaps)
+                wn.reset_initial_values()
+                err2 = None
+                try:
+                    import warnings as _w
+                    with _w.catch_warnings():
+                        _w.simplefilter("ignore")
+                        sim.run_sim()
+                except Exception as e:   # noqa
+                    err2 = "%s: %s" % (type(e).__name__, e)
+                snaps.clear()
+                snaps.update(snaps1)
+                run.count("simulator_object_reused")
+                if simrun.converged(res, err, warns) and (err2 is not None or allsnaps[n1:] != allsnaps[:n1]):
+                    first = next((i for i, (a, b) in enumerate(zip(allsnaps[:n1], allsnaps[n1:])) if a != b), min(n1, len(allsnaps) - n1))
+                    run.violation("second_run_of_the_simulator_treats_cut_off_parts_differently",
+                                  "C09: after reset_initial_values the same simulator object does not reproduce the isolation flags / solves of its "
+                                  "first run (error: %s; first differing solve: #%d)" % (err2, first),
+                                  input={"spec": spec, "second_run_error": err2, "solves_first_run": n1, "solves_second_run": len(allsnaps) - n1,
+                                         "first_run_solve": list(allsnaps[first]) if first < n1 else None,
+                                         "second_run_solve": list(allsnaps[n1 + first]) if n1 + first < len(allsnaps) else None})
+        for (f0, e0, upds) in gt.runs:
             # the matrix bookkeeping is tied whatever became of the run (it precedes every solve)
             def nl(xs):
                 return "[" + "; ".join("%d%%nat" % x for x in xs) + "]"
@@ -156,18 +181,19 @@ def check(run, replay=None):
             def bl(xs):
                 return "[" + "; ".join("true" if x else "false" for x in xs) + "]"
             lk0 = "[" + "; ".join("(%d%%nat, %d%%nat, %s)" % (nidx[wn.get_link(l).start_node_name], nidx[wn.get_link(l).end_node_name],
-                                                              "true" if o else "false") for l, o in zip(link_names, gt.init[0])) + "]"
-            ups = gt.updates[:400]
+                                                              "true" if o else "false") for l, o in zip(link_names, f0)) + "]"
+            ups = upds[:400]
             hist = "[" + "; ".join("(%s, %s, %s)" % (nl(c), bl(f), nl(e)) for c, f, e in ups) + "]"
-            add_case("graph_ok %s %s %s = true" % (lk0, nl(gt.init[1]), hist),
-                     {"check": "connectivity matrix", "spec": spec, "links": link_names, "initial_open": gt.init[0], "initial_entries": gt.init[1],
+            add_case("graph_ok %s %s %s = true" % (lk0, nl(e0), hist),
+                     {"check": "connectivity matrix", "spec": spec, "links": link_names, "initial_open": f0, "initial_entries": e0,
+                      "simulator_object_reused": reuse,
                       "updates": [{"tracker_changed": [link_names[i] for i in c], "open": f, "entries": e} for c, f, e in ups[:50]]})
             nflip = sum(1 for c, f, e in ups if c)
-            run.case({"net": k, "graph": True}, nflip > 0, None)
+            run.case({"net": k, "graph": True, "n": len(ups)}, nflip > 0, None)
             run.count("matrix_updates", len(ups))
             run.count("matrix_updates_with_status_changes", nflip)
-            if gt.asym:
-                run.violation("connectivity_matrix_not_symmetric", "C09: the two entries of a link in the internal graph differ", input={"spec": spec})
+        if gt.asym:
+            run.violation("connectivity_matrix_not_symmetric", "C09: the two entries of a link in the internal graph differ", input={"spec": spec})
         if res is None:
             continue
         done += 1
